@@ -37,7 +37,7 @@ func init() {
 			"F2 every copy into a fixed-size pooled buffer is bounded by guards whose constants fit the buffer including the destination offset (or the buffer is re-allocated to the source length), and re-slices of pooled buffers use lengths derived from the buffer; F3 two-sided slices have ordered bounds (or the MarshalSize-of-a-header-parsed-from-the-same-bytes idiom) and length-relative bounds are tested; " +
 			"F4 results of Attributes.GetRTPHeader/GetRTCPPackets, rtcp.Unmarshal and pion/rtp Unmarshal are used only on the success branch of their error; A4 read buffers are used only as buffer[:n]; D3 no blocking send/receive on an internal channel on an API path without a close-channel case or default (no wedge).",
 		notDecided:  "crash-freedom itself: panics whose absence rests on arithmetic invariants (ring/bitmap indices seq%size, packetArrivalTimeMap capacity arithmetic, flexfec XOR lengths and constant header offsets), nil dereferences, panics inside pion/rtp and pion/rtcp, termination of loops (all loops over untrusted counts are bounded by 16-bit fields; not checked mechanically), one-sided slices s[n:] whose bound a callee computed",
-		sels:        []sel{s("N1"), s("N2"), s("C7"), s("A5"), so("F6"), so("F5"), s("L4", `jitterbuffer`), s("F1"), s("F2"), so("F3"), s("F4"), s("A4"), s("D3")},
+		sels:        []sel{s("D7"), s("T5"), s("N1"), s("N2"), s("C7"), s("A5"), so("F6"), so("F5"), s("L4", `jitterbuffer`), s("F1"), s("F2"), so("F3"), s("F4"), s("A4"), s("D3")},
 		assumptions: append([]string{"comparisons are credited as guards whatever their direction/strictness (a missing guard is detected, an off-by-one in a present guard is not, except for constant guards of pooled-buffer copies where the arithmetic is checked)", "two evaluations of a condition built only from parameters and constants agree (path classes are split on such conditions)"}, stdAssume...),
 	})
 	def(&propDef{
@@ -46,7 +46,7 @@ func init() {
 			"C2 state declared goroutine-confined is only accessed in functions reachable (call graph) from its owner goroutine's entry; C3 fields used with sync/atomic are only used with sync/atomic; C4 every other field of a lock-bearing type is never stored to on a shared object outside constructors/option closures (setup-time setters listed); " +
 			"C5 the held→acquired lock graph is acyclic, no mutex is re-acquired while held on the same object, and no WaitGroup.Wait/blocking channel operation happens under a lock its counterpart can need; D4 the close of each lifecycle channel and the isClosed/Add/go start sequence run under the same mutex; H3 every plain send on a channel that a Close method closes is made on the not-closed branch of a closed test while a lock is read-held that the closing site holds exclusively (Close racing with traffic cannot send on a closed channel).",
 		notDecided:  "races on memory the table does not name (fields of pion/rtp, pion/rtcp, x/time/rate objects; the Attributes map handed to packetdump's logger goroutine), lost updates that are not data races, liveness, stalls while a private lock is held across a downstream Write (noted, not a violation)",
-		sels:        []sel{s("C8"), s("C7"), s("C1"), s("C2"), s("C3"), s("C4"), s("C5"), s("C6"), s("D4"), s("H3")},
+		sels:        []sel{s("C9"), s("C8"), s("C7"), s("C1"), s("C2"), s("C3"), s("C4"), s("C5"), s("C6"), s("D4"), s("H3")},
 		assumptions: append([]string{"locks are identified by (struct type, field): two instances of one type are not distinguished", "the guard table and confinement table are hand-confirmed; every row must resolve to at least one access or the check fails", "exported methods are entry points with an empty lockset"}, stdAssume...),
 	})
 	def(&propDef{
@@ -54,7 +54,7 @@ func init() {
 		explanation: "Decides for every go statement, goroutine loop, API-path channel operation, lifecycle channel and per-stream container: D1 each goroutine is dominated by WaitGroup.Add on a field of its owner, its entry defers Done, the owner's Close reaches Wait on every path; D2 every blocking loop in a goroutine has a select case on (or ranges over) a channel that a Close method closes, and that case leaves the loop; " +
 			"D3 every send/receive on an internal channel in a function reachable from the API sits in a select with a close-channel case or a default; D4 close(lifecycle) and the start sequence share a mutex; D5 every container keyed by StreamInfo.SSRC that Bind{Local,Remote}Stream fills is emptied by the Unbind of the same direction and binding installs fresh state; D6 Bind starts a goroutine only on the not-closed branch of a closed test; C5(wait) a WaitGroup.Wait or blocking channel operation executed while a lock is held (including a lock held by the caller of Close) has no counterpart goroutine that can need that lock — Close cannot deadlock against the goroutine it waits for.",
 		notDecided:  "wall-clock promptness; goroutines blocked inside a user-supplied writer; that nothing is written after Close returns when the goroutine is accounted but slow; double Close",
-		sels:        []sel{s("N1"), s("N2"), s("C7"), s("D1"), s("D2"), s("D3"), s("D4"), s("D5"), s("D6"), s("C5", `\|wait:`)},
+		sels:        []sel{s("D7"), s("N1"), s("N2"), s("C7"), s("D1"), s("D2"), s("D3"), s("D4"), s("D5"), s("D6"), s("C5", `\|wait:`)},
 		assumptions: append([]string{"channels are identified by the struct fields / make sites they flow through (parameters resolved through static call sites)", "only closes executed from a Close method count as shutdown signals"}, stdAssume...),
 	})
 }
@@ -78,7 +78,7 @@ func init() {
 			"T1 — retain/release typestate: every packet obtained from RTPBuffer.Get is released exactly once after its last use, every slot overwrite in RTPBuffer.Add/Clear releases the previous occupant exactly once, Get hands out only packets that passed a successful Retain (a double release would recycle a buffer that is still being retransmitted); " +
 			"C1 — ring, stream table and reference count are only touched under their mutexes; A1 — the original packet is forwarded exactly once after the copy; D5 — unbind removes the stream's ring.",
 		notDecided:  "which sequence numbers the ring holds (window arithmetic seq%size, half-range tests), RTX header field values, the padding arithmetic, that the retransmission goroutine has finished when Close returns (known finding under C11)",
-		sels: []sel{s("J5", `\|(internal/rtpbuffer|pkg/nack)[.:]`), so("T4", `rtpbuffer`), s("C8", `nack\.|inspected`), s("J4", `\|(internal/rtpbuffer|pkg/nack)[.:]`), so("F6", `rtpbuffer`), s("P3", `rtpbuffer\.RTPBuffer`), s("F2", `rtpbuffer`), s("B", `nack\.\(\*ResponderInterceptor\)`), s("T1"), so("T2"), s("C1", `pkg/nack\.(localStream|ResponderInterceptor)\.|rtpbuffer\.RetainablePacket\.`),
+		sels: []sel{so("T5", `rtpbuffer`), so("C6", `nack\..*lookup-delete`), s("J5", `\|(internal/rtpbuffer|pkg/nack)[.:]`), so("T4", `rtpbuffer`), s("C8", `nack\.|inspected`), s("J4", `\|(internal/rtpbuffer|pkg/nack)[.:]`), so("F6", `rtpbuffer`), s("P3", `rtpbuffer\.RTPBuffer`), s("F2", `rtpbuffer`), s("B", `nack\.\(\*ResponderInterceptor\)`), s("T1"), so("T2"), s("C1", `pkg/nack\.(localStream|ResponderInterceptor)\.|rtpbuffer\.RetainablePacket\.`),
 			s("A1", `nack\.\(\*ResponderInterceptor\)`), s("D5", `nack\.ResponderInterceptor`)},
 		assumptions: stdAssume,
 	})
@@ -138,7 +138,7 @@ func init() {
 			"H2 — in the publishing function every pacer.SetTargetBitrate call and every invocation of the change callback receives the stored value itself (same SSA value or a reload of the field), and GetTargetBitrate returns that field (under SendSideBWE.lock by C1); " +
 			"H3 — every call path to a plain send on a channel that a Close method closes passes a closed test on its not-closed branch while a lock is read-held that the closing site holds exclusively (no send on a closed pipe, documented closed error otherwise); C5 — that wait-under-lock is deadlock-free; C1/C2 rows of the gcc types.",
 		notDecided:  "anything about the floating-point pipeline itself (rate = bits/dt with dt = 0, 0/0 in increase) beyond the fact that the clamp absorbs it; that feedback never blocks for long (consumers are goroutines fed through unbuffered pipes)",
-		sels:        []sel{s("A5", `pkg/(cc|gcc)\.`), s("C7", `pkg/gcc\.`), s("H1"), s("H2"), s("H3"), s("C5", `gcc\.`), s("C1", `pkg/gcc\.`), s("C2", `pkg/gcc\.`)},
+		sels:        []sel{s("C9", `inspected|gcc\.`), s("A5", `pkg/(cc|gcc)\.`), s("C7", `pkg/gcc\.`), s("H1"), s("H2"), s("H3"), s("C5", `gcc\.`), s("C1", `pkg/gcc\.`), s("C2", `pkg/gcc\.`)},
 		assumptions: std,
 	}
 }
@@ -157,7 +157,7 @@ func init() {
 		explanation: "Decides the structural clauses: M1 — in FlexEncoder03.encodeFlexFecPacket all accesses to the coverage table (GetCoveredBy, ExtractMask1/2/3_03) use one and the same index value, so the masks written name exactly the packets that were combined, and the repair sequence number is advanced exactly once on every path that produces a packet and on none that does not; " +
 			"P2 + A1 — the application's packet is forwarded first, exactly once, unmodified (A3), and repair packets are injections issued only after it; B — what is buffered for XOR is a deep copy of what was sent (caller may reuse its buffer); F2 — the scratch buffer is re-allocated when a packet exceeds the pooled size; E3/C1 — the batch buffer is reset on every path from the batch-full trigger, under the stream mutex.",
 		notDecided:  "XOR recoverability itself, bit layout of the masks, header offsets and length recovery — algebra over byte values; the coverage mask construction (flexfec_coverage.go); FlexEncoder20 and the decoder (declared work in progress)",
-		sels:        []sel{so("T4", `flexfec`), s("K4", `\|pkg/flexfec[.:]`), s("T3", `flexfec`), s("M1"), so("P2", `flexfec`), s("A1", `flexfec`), s("A3", `flexfec`), s("B", `flexfec`), so("F2", `flexfec`), so("E3", `flexfec`), s("C1", `flexfec\.`)},
+		sels:        []sel{s("T5", `inspected|flexfec`), so("T4", `flexfec`), s("K4", `\|pkg/flexfec[.:]`), s("T3", `flexfec`), s("M1"), so("P2", `flexfec`), s("A1", `flexfec`), s("A3", `flexfec`), s("B", `flexfec`), so("F2", `flexfec`), so("E3", `flexfec`), s("C1", `flexfec\.`)},
 		assumptions: std,
 	}
 	props["C17"] = &propDef{
@@ -165,7 +165,7 @@ func init() {
 		explanation: "Decides: Q1 — FIFO discipline of the queue API: the leaky-bucket pacer's list is only used through PushBack/Front/Remove(Front())/Len, the pacing interceptor's slice queue is appended at the tail, read at element 0 and cut [1:]; Q2 — in the consumer loop at most one downstream Write per dequeued packet and exactly one unless the stream has no writer (comma-ok lookup failed), and a pacer's Write returns a nil error only on paths that enqueued exactly once; " +
 			"Q3 — in the token-bucket loop every Write is dominated by a test of the limiter's budget and by a charge (AllowN) of the limiter; B — what is queued is a copy (header Clone, payload copy); F2 — the copy into the pooled buffer cannot truncate; C1 — queue and writer table under their mutexes; D2 — the consumer loops stop on Close.",
 		notDecided:  "the cumulative-bits inequality as a numeric bound; ordering across the lock hand-over in Run beyond the single-consumer structure; that NoOpPacer holds its lock across the downstream write (noted)",
-		sels:        []sel{so("T4", `gcc\.`), s("C7", `gcc\.\(\*(LeakyBucket|NoOp)Pacer\)|pacing\.`), s("F5", `pkg/(pacing|gcc)\.`), s("Q1"), s("Q2"), s("Q3"), s("Q4"), s("B", `gcc\.\(\*(LeakyBucket|NoOp)Pacer\)|pacing\.`), s("F2", `gcc\.`), s("C1", `gcc\.(LeakyBucket|NoOp)Pacer\.|pacing\.`), s("D2", `gcc\.\(\*LeakyBucketPacer\)|pacing\.`)},
+		sels:        []sel{s("C9", `inspected|gcc\.|pacing\.`), so("T4", `gcc\.`), s("C7", `gcc\.\(\*(LeakyBucket|NoOp)Pacer\)|pacing\.`), s("F5", `pkg/(pacing|gcc)\.`), s("Q1"), s("Q2"), s("Q3"), s("Q4"), s("B", `gcc\.\(\*(LeakyBucket|NoOp)Pacer\)|pacing\.`), s("F2", `gcc\.`), s("C1", `gcc\.(LeakyBucket|NoOp)Pacer\.|pacing\.`), s("D2", `gcc\.\(\*LeakyBucketPacer\)|pacing\.`)},
 		assumptions: std,
 	}
 	props["C19"] = &propDef{
@@ -225,4 +225,12 @@ func init() {
 	add("C18", "J5 no ordered comparison against a wrapping sum of sequence numbers. L5 a node is unlinked through a trailing pointer that is its predecessor in every iteration of the scan, the first included (or the unlink is unreachable in the first iteration because the head was compared before the loop); unlinking through the node's own back pointer is noted, not decided.")
 	add("C20", "J5 no ordered comparison against a wrapping sum in the unwrapper's package.")
 	add("C07", "J5 no ordered comparison against a wrapping sum.")
+	// rules added after seed round 8 (DESIGN.md §10.12)
+	add("C10", "C9 no call of a user callback (a function held in a field or listener table) or of the neighbouring chain element happens with one of the object's mutexes held, beyond the (callee, mutex) pairs confirmed on the pinned tree: foreign code that calls back into the object would wait for the mutex its caller holds.")
+	add("C16", "C9 the bitrate-change callback and the pacer's downstream writes are not moved under the estimator's / pacer's mutexes.")
+	add("C17", "C9 the pacers' downstream writes are not moved under a pacer mutex (the no-op pacer's read lock is the confirmed, noted exception).")
+	add("C11", "D7 a service loop (a goroutine's select loop with a lifecycle case) is left only through that case: no early return on a failed write leaves the loop's channels unserved while the interceptor is still open.")
+	add("C02", "D7 no service loop dies early and leaves its producers blocked; T5 an open-ended view of a pooled buffer is only written into (never the source of a copy/XOR); F1 an index len(s)-c needs a test that bounds len(s) from below, an upper-bound test does not count.")
+	add("C14", "T5 the encoder reads the pooled scratch buffer only up to the bytes it has just marshalled into it (no open-ended view of the buffer is used as a source).")
+	add("C04", "T5 open-ended views of the pooled payload buffer are write destinations only; C6 a stream is removed from the table in the critical section that looked it up (or is looked up again), so a re-bind in between is not removed in its place.")
 }
